@@ -206,6 +206,9 @@ def plan(tier, seed):
     for k in [k for k in range(2, 14 if tier == "quick" else 21) if k not in (9, 10)]:
         specs.append({"kind": "ladders", "ks": [k]})
     specs.append({"kind": "shaped", "examples": 300 if tier == "quick" else 2000, "seed": seed * 1000 + 99})
+    # near-ties between crossing stems that lie hundreds of stems apart in 5'->3' order
+    for n in ((130, 270) if tier == "quick" else (60, 130, 270, 400)):
+        specs.append({"kind": "enclosing", "hairpins": n})
     return specs
 
 
@@ -253,6 +256,15 @@ def run_shard(spec) -> ShardResult:
     elif kind == "blowup":
         run_hypothesis(PROP_ID, ssref.st_structures(max_abstract=spec["max_abstract"], min_abstract=2), oracle,
                        seed=spec["seed"], max_examples=spec["examples"], result=res, to_json=tj, classify=classify)
+        res.exhaustive = False
+    elif kind == "enclosing":
+        H, T = [(0, 2), (1, 3)], [(0, 3), (1, 4), (2, 5)]
+        for chords, lens in ((H, (3, 2)), (H, (2, 3)), (H, (4, 3)), (T, (4, 3, 2)), (T, (2, 3, 4)), (T, (3, 4, 3))):
+            for gap in range(len(chords) * 2 - 1):
+                case = ssref.with_hairpins_inside(chords, lens, gap, spec["hairpins"])
+                nt, labs = classify(case)
+                res.note_case([len(case[0]), list(map(list, chords)), list(lens), gap, spec["hairpins"]], nt, labs + [f"knot-around-{spec['hairpins']}-hairpins"], sample_cap=1)
+                check_case(PROP_ID, oracle, case, res, to_json=tj)
         res.exhaustive = False
     elif kind == "shaped":
         from hypothesis import strategies as st
